@@ -471,6 +471,8 @@ func (w *Worker) apply(st *Stim) {
 	case "refresh":
 		// one probe round: tick (probe), reply, refresher, tick (rebuild); then publish the proxy's routing table
 		w.refresh(st.Count == 1)
+	case "race":
+		w.Race(st.Plan)
 	case "authfile":
 		w.authFile(st)
 	case "npause":
